@@ -1,5 +1,6 @@
 import MockeryModel.Gen.Header
 import MockeryModel.Generated.HeaderFacts
+import MockeryLemmas.Header
 /-!
 # C17 — generated-file marker, boilerplate and build constraints are effective
 
@@ -19,16 +20,6 @@ theorem header_transcribed :
     Generated.readFileLines = 7 := ⟨rfl, rfl, by decide, by decide⟩
 
 /-! ### the rendered header -/
-
-def boilerPart (env : HeaderEnv) : List Char :=
-  match env.data "boilerplate-file" with
-  | some (c :: p) => '\n' :: env.file (c :: p)
-  | _ => []
-
-def tagsPart (env : HeaderEnv) : List Char :=
-  match env.data "mock-build-tags" with
-  | some (c :: t) => "\n\n//go:build ".toList ++ (c :: t)
-  | _ => []
 
 /-- **the header, spelled out**: marker block, then (if configured) a newline and the boilerplate file's
 content verbatim, then (if configured) a blank line and the constraint line, then a blank line and the
@@ -65,17 +56,6 @@ theorem boilerplate_verbatim (env : HeaderEnv) (marker : String) (c : Char) (p :
 
 /-! ### the marker -/
 
-theorem firstLine_append (a b : List Char) (h : ∀ x ∈ a, x ≠ '\n') : firstLine (a ++ '\n' :: b) = a := by
-  induction a with
-  | nil => simp [firstLine]
-  | cons x a ih =>
-    have hx : (x != '\n') = true := by simpa using h x List.mem_cons_self
-    simp only [firstLine, List.cons_append, List.takeWhile_cons, hx, if_true]
-    congr 1
-    exact ih (fun y hy => h y (List.mem_cons_of_mem _ hy))
-
-def markerLine : List Char := "// Code generated by mockery; DO NOT EDIT.".toList
-
 /-- **the first line of every generated file is a generated-code marker**, whatever the configuration -/
 theorem marker_first (env : HeaderEnv) (marker : String) (hm : marker = testifyMarker ∨ marker = matryerMarker) :
     firstLine (renderHeader env (builtinHeader marker)) = markerLine ∧ isGeneratedMarker markerLine = true := by
@@ -92,159 +72,10 @@ theorem marker_first (env : HeaderEnv) (marker : String) (hm : marker = testifyM
 
 /-! ### the header as the toolchain reads it -/
 
-theorem scan_append (a b : List Char) (st : ScanState) : scan (a ++ b) st = scan b (scan a st) := by
-  simp [scan, List.foldl_append]
-
-theorem scan_line (l : List Char) (h : ∀ x ∈ l, x ≠ '\n') (st : ScanState) :
-    scan l st = { st with cur := l.reverse ++ st.cur } := by
-  induction l generalizing st with
-  | nil => simp [scan]
-  | cons x l ih =>
-    have hx : (x == '\n') = false := by simpa using h x List.mem_cons_self
-    simp only [scan, List.foldl_cons, stepChar, hx, Bool.false_eq_true, if_false]
-    have := ih (fun y hy => h y (List.mem_cons_of_mem _ hy)) { st with cur := x :: st.cur }
-    simp only [scan] at this
-    rw [this]
-    simp
-
-/-- a whole line read from a line start -/
-theorem scan_whole_line (l : List Char) (h : ∀ x ∈ l, x ≠ '\n') (st : ScanState) (hc : st.cur = []) :
-    scan (l ++ ['\n']) st = processLine st l := by
-  rw [scan_append, scan_line l h]
-  simp only [scan, List.foldl_cons, List.foldl_nil, stepChar, hc]
-  simp
-  congr 1
-  cases st; simp_all
-
-theorem dropWhile_append_stop (p : Char → Bool) (a : List Char) (c : Char) (h : p c = false) :
-    (a ++ [c]).dropWhile p = a.dropWhile p ++ [c] := by
-  induction a with
-  | nil => simp [List.dropWhile, h]
-  | cons x a ih =>
-    simp only [List.cons_append, List.dropWhile_cons]
-    split
-    · exact ih
-    · simp
-
-/-- trimming keeps a first character that is not white space -/
-theorem trim_cons (c : Char) (l : List Char) (h : isSp c = false) : ∃ l', trim (c :: l) = c :: l' := by
-  unfold trim trimLeft trimRight
-  simp only [List.dropWhile_cons, h]
-  simp only [Bool.false_eq_true, if_false, List.reverse_cons]
-  rw [dropWhile_append_stop _ _ _ h]
-  exact ⟨(List.dropWhile isSp l.reverse).reverse, by simp⟩
-
-/-- a line that ends in a non-space character and starts with one is its own trimmed form -/
-theorem trim_id (c : Char) (l : List Char) (d : Char) (hc : isSp c = false) (hd : isSp d = false) :
-    trim (c :: (l ++ [d])) = c :: (l ++ [d]) := by
-  unfold trim trimLeft trimRight
-  simp only [List.dropWhile_cons, hc, Bool.false_eq_true, if_false]
-  have : (c :: (l ++ [d])).reverse = d :: (l.reverse ++ [c]) := by simp
-  rw [this]
-  simp [List.dropWhile_cons, hd]
-
-theorem processLine_blank (st : ScanState) : processLine st [] = st := by
-  unfold processLine
-  split
-  · rfl
-  · simp [trim, trimLeft, trimRight]
-
-theorem goBuildPrefix_eq : goBuildPrefix = ['/', '/', 'g', 'o', ':', 'b', 'u', 'i', 'l', 'd'] := by decide
-theorem slashSlash_eq : "//".toList = ['/', '/'] := by decide
-theorem slashStar_eq : "/*".toList = ['/', '*'] := by decide
-
-theorem isGoBuild_head (c : Char) (l : List Char) (h : c ≠ '/') : isGoBuild (c :: l) = false := by
-  unfold isGoBuild
-  rw [goBuildPrefix_eq]
-  simp [List.isPrefixOf, h]
-  intro h'; exact absurd h'.symm h
-
-theorem commentsLoop_code (n : Nat) (c : Char) (l : List Char) (h : c ≠ '/') :
-    commentsLoop (n + 1) (c :: l) false = (false, true) := by
-  have h1 : ['/', '/'].isPrefixOf (c :: l) = false := by
-    simp [List.isPrefixOf]; intro h'; exact absurd h'.symm h
-  have h2 : ['/', '*'].isPrefixOf (c :: l) = false := by
-    simp [List.isPrefixOf]; intro h'; exact absurd h'.symm h
-  simp only [commentsLoop, slashSlash_eq, slashStar_eq, h1, h2]
-  simp
-
-/-- the package clause ends the header -/
-theorem processLine_package (st : ScanState) (pkg : List Char) (hd : st.done = false) (hb : st.inBlock = false) :
-    processLine st ("package ".toList ++ pkg) = { st with done := true } := by
-  have hp : "package ".toList = ['p', 'a', 'c', 'k', 'a', 'g', 'e', ' '] := by decide
-  rw [hp, List.cons_append]
-  obtain ⟨l', hl⟩ := trim_cons 'p' (['a', 'c', 'k', 'a', 'g', 'e', ' '] ++ pkg) (by decide)
-  unfold processLine
-  simp only [hd, Bool.false_eq_true, if_false, hl, List.isEmpty_cons, hb,
-    isGoBuild_head 'p' l' (by decide), List.length_cons, commentsLoop_code _ 'p' l' (by decide)]
-  cases st; simp_all
-
-/-- the constraint line is recorded as the file's `//go:build` line -/
-theorem processLine_goBuild (t : List Char) (d : Char) (hd : isSp d = false) :
-    processLine clean (constraintLine (t ++ [d])) = { clean with goBuild := some (constraintLine (t ++ [d])) } := by
-  have hshape : constraintLine (t ++ [d]) = '/' :: ((['/', 'g', 'o', ':', 'b', 'u', 'i', 'l', 'd', ' '] ++ t) ++ [d]) := by
-    simp [constraintLine, goBuildPrefix_eq]
-  have htrim := trim_id '/' (['/', 'g', 'o', ':', 'b', 'u', 'i', 'l', 'd', ' '] ++ t) d (by decide) hd
-  rw [hshape]
-  unfold processLine
-  simp only [clean, Bool.false_eq_true, if_false, htrim, List.isEmpty_cons]
-  have hg : isGoBuild ('/' :: ((['/', 'g', 'o', ':', 'b', 'u', 'i', 'l', 'd', ' '] ++ t) ++ [d])) = true := by
-    unfold isGoBuild
-    rw [goBuildPrefix_eq]
-    simp [List.isPrefixOf, isSp]
-  have hc : ∀ n, commentsLoop (n + 1) ('/' :: ((['/', 'g', 'o', ':', 'b', 'u', 'i', 'l', 'd', ' '] ++ t) ++ [d])) false = (false, false) := by
-    intro n
-    simp [commentsLoop, slashSlash_eq, List.isPrefixOf]
-  rw [hg, hc]
-  rfl
-
-/-- what follows the marker block and the boilerplate when tags are configured: blank line, constraint line,
-blank line, package clause -/
-theorem scan_tail_with (t : List Char) (d : Char) (pkg : List Char) (hd : isSp d = false)
-    (hnl : ∀ x ∈ t ++ [d], x ≠ '\n') (hpkg : ∀ x ∈ pkg, x ≠ '\n') :
-    scan ('\n' :: (constraintLine (t ++ [d]) ++ '\n' :: '\n' :: ("package ".toList ++ pkg ++ ['\n']))) clean =
-      { clean with goBuild := some (constraintLine (t ++ [d])), done := true } := by
-  have e : '\n' :: (constraintLine (t ++ [d]) ++ '\n' :: '\n' :: ("package ".toList ++ pkg ++ ['\n'])) =
-      ([] ++ ['\n']) ++ ((constraintLine (t ++ [d]) ++ ['\n']) ++ (([] ++ ['\n']) ++ (("package ".toList ++ pkg) ++ ['\n']))) := by
-    simp
-  rw [e, scan_append, scan_whole_line [] (by simp) clean rfl, processLine_blank]
-  have hcl : ∀ x ∈ constraintLine (t ++ [d]), x ≠ '\n' := by
-    intro x hx
-    simp only [constraintLine, goBuildPrefix_eq, List.mem_append, List.mem_cons] at hx
-    rcases hx with h | h | h
-    · intro hx'; subst hx'; simp at h
-    · intro hx'; subst hx'; simp at h
-    · exact hnl x (by simpa using h)
-  rw [scan_append, scan_whole_line _ hcl clean rfl, processLine_goBuild t d hd]
-  rw [scan_append, scan_whole_line [] (by simp) _ rfl, processLine_blank]
-  have hpl : ∀ x ∈ "package ".toList ++ pkg, x ≠ '\n' := by
-    intro x hx
-    rcases List.mem_append.1 hx with h | h
-    · intro hx'; subst hx'; revert h; decide
-    · exact hpkg x h
-  rw [scan_whole_line _ hpl _ rfl, processLine_package _ _ rfl rfl]
-
-theorem scan_tail_without (pkg : List Char) (hpkg : ∀ x ∈ pkg, x ≠ '\n') :
-    scan ('\n' :: ("package ".toList ++ pkg ++ ['\n'])) clean = { clean with done := true } := by
-  have e : '\n' :: ("package ".toList ++ pkg ++ ['\n']) = ([] ++ ['\n']) ++ (("package ".toList ++ pkg) ++ ['\n']) := by simp
-  rw [e, scan_append, scan_whole_line [] (by simp) clean rfl, processLine_blank]
-  have hpl : ∀ x ∈ "package ".toList ++ pkg, x ≠ '\n' := by
-    intro x hx
-    rcases List.mem_append.1 hx with h | h
-    · intro hx'; subst hx'; revert h; decide
-    · exact hpkg x h
-  rw [scan_whole_line _ hpl _ rfl, processLine_package _ _ rfl rfl]
-
 /-- both marker blocks are line comments: read from the top of the file they leave the scanner clean -/
 theorem marker_is_comment (marker : String) (hm : marker = testifyMarker ∨ marker = matryerMarker) :
     scan (marker.toList ++ ['\n']) clean = clean := by
   rcases hm with rfl | rfl <;> decide
-
-/-- what is configured as boilerplate is comment-only text (`CommentOnly`), or nothing is configured -/
-def BoilerplateOK (env : HeaderEnv) : Prop :=
-  match env.data "boilerplate-file" with
-  | some (c :: p) => CommentOnly (env.file (c :: p))
-  | _ => True
 
 theorem scan_prefix (env : HeaderEnv) (marker : String) (hm : marker = testifyMarker ∨ marker = matryerMarker)
     (hb : BoilerplateOK env) (rest : List Char) :
